@@ -455,6 +455,44 @@ def inject_loop(entry, gloop, kind):
             raise gen.Ungeneratable('instances')
         st, pos = set_pos(d, idx[m])
         return d, {'level': 'seg', 'code': '4', 'seg_id': first.id, 'pos': pos}, False
+    if kind == 'beyond-repeat-interleaved':
+        # A, B x max, A, B: the surplus instance of B arrives after a second instance of a same-position sibling loop A
+        m = G.maxrep(gloop)
+        A = interleave_partner(gloop)
+        if A is None:
+            raise gen.Ungeneratable('no same-position sibling loop that may repeat')
+        d = gen.build(entry, {'include': {gloop.path, A.path}, 'repeat': {gloop.path: m + 1, A.path: 2}, 'sets': 2, 'overflow': True})
+        if gen.selfcheck(d):
+            raise gen.Ungeneratable('ambiguous carrier')
+
+        def blocks(path):
+            out = {}
+            for k, lp in enumerate(d.lpaths):
+                if set_pos(d, k)[0] != 0:
+                    continue
+                for (p_, inst) in lp:
+                    if p_ == path:
+                        out.setdefault(inst, []).append(k)
+            return [out[i] for i in sorted(out)]
+        bA, bB = blocks(A.path), blocks(gloop.path)
+        if len(bA) != 2 or len(bB) != m + 1:
+            raise gen.Ungeneratable('instances')
+        allk = sorted(k for b in bA + bB for k in b)
+        if allk != list(range(allk[0], allk[-1] + 1)) or any(b != list(range(b[0], b[-1] + 1)) for b in bA + bB):
+            raise gen.Ungeneratable('instances not contiguous')
+        order = [bA[0]] + bB[:m] + [bA[1]] + [bB[m]]
+        idx = [k for b in order for k in b]
+        lo = allk[0]
+        segs = [d.segs[k] for k in idx]; nodes = [d.nodes[k] for k in idx]; lps = [d.lpaths[k] for k in idx]
+        d.segs[lo:lo + len(idx)] = segs; d.nodes[lo:lo + len(idx)] = nodes; d.lpaths[lo:lo + len(idx)] = lps
+        fix_counts(d)
+        j = lo + sum(len(b) for b in order[:-1])
+        # the carrier without the surplus instance must itself be accepted (else the interleaving is a C02 matter)
+        d0 = gen.Doc(); d0.segs = [list(x) for x in d.segs[:j] + d.segs[j + len(bB[m]):]]; d0.nodes = d.nodes[:j] + d.nodes[j + len(bB[m]):]; d0.lpaths = d.lpaths[:j] + d.lpaths[j + len(bB[m]):]
+        fix_counts(d0)
+        d.base_text = d0.text(eol='\n')
+        st, pos = set_pos(d, j)
+        return d, {'level': 'seg', 'code': '4', 'seg_id': gloop.children[0].id, 'pos': pos}, False
     if kind == 'missing-required-loop':
         first = gloop.children[0]
         root = G.load(entry[4])
@@ -606,6 +644,8 @@ def _cases_raw(root, thorough, seen):
         if n.kind == 'loop' and not gen.transparent(n) and n.usage != 'N' and n.path.startswith('/ISA_LOOP/GS_LOOP/ST_LOOP/') \
                 and G.maxrep(n) <= 10 and not any(a.usage == 'N' for a in ancestors(n) if a.kind == 'loop'):
             yield {'what': 'loop', 'path': n.path, 'kind': 'beyond-repeat'}
+            if interleave_partner(n) is not None:
+                yield {'what': 'loop', 'path': n.path, 'kind': 'beyond-repeat-interleaved'}
     for n in G.walk(root):
         # a whole required loop left out (every segment of one instance removed); loops opened by an HL carry the
         # hierarchy numbering and are left to C04
@@ -613,6 +653,14 @@ def _cases_raw(root, thorough, seen):
                 and n.id not in ('ST_LOOP',) and n.children and n.children[0].kind == 'seg' and n.children[0].id != 'HL' \
                 and not any(a.usage == 'N' for a in ancestors(n) if a.kind == 'loop'):
             yield {'what': 'loop', 'path': n.path, 'kind': 'missing-required-loop'}
+
+
+def interleave_partner(gloop):
+    for c in gloop.parent.children:
+        if c is not gloop and c.kind == 'loop' and c.pos == gloop.pos and c.usage != 'N' and not gen.transparent(c) and G.maxrep(c) >= 2 \
+                and c.children and c.children[0].kind == 'seg':
+            return c
+    return None
 
 
 def ancestors(n):
@@ -663,7 +711,7 @@ def run(R):
     R.pmap(work, shards)
     R.bounds = {'maps': len(ents), 'injections': total,
                 'catalogue': ['too-long', 'too-long-punctuated (AN)', 'too-long-signed (R)', 'too-short', 'wrong-class', 'impossible-date (month)', 'impossible-date-day', 'impossible-time (hour)', 'impossible-time-minute', 'impossible-time-second', 'outside-code-list', 'outside-external-set (also with all other external sets excluded by option)', 'missing-required',
-                              'not-used-filled', 'too-many-elements', 'syntax:<note>', 'unknown-id', 'unknown-id-malformed', 'missing-required-segment', 'beyond-max-use',
+                              'not-used-filled', 'too-many-elements', 'syntax:<note>', 'unknown-id', 'unknown-id-malformed', 'missing-required-segment', 'beyond-max-use', 'beyond-repeat-interleaved (A, B x max, A, B for same-position sibling loops)',
                               'not-used-segment', 'beyond-repeat (loops)', 'missing-required-loop'],
                 'targets': 'every node x every applicable kind' if R.thorough else 'one node per definition signature per map x every applicable kind'}
     R.assumptions = ['carrier = the d<=1 conformant document containing the target, in a two-set interchange whose other set is minimal',
